@@ -132,6 +132,22 @@ PROPS = {
         "level_text": "Exploration by generated concurrent schedules with random perturbation at hook points; linearisability-style history check. Sampling of schedules, not proof.",
         "level_note": "Trusted base: the harness aggregate; OS scheduling.",
     },
+    "C08": {
+        "level": "exploration",
+        "cases": {"quick": 960, "thorough": 19200},
+        "rule": "cases = generated (disk-backed configuration, hierarchy of up to three CAs under the trust anchor, history of 0-13 (thorough 0-29) operations that brings keys, rolls, children and publication into some state, target operation = the last operation of the history that writes something (operation kinds that only drive the clock or the task pump, and the two documented best-effort operations - deleting a CA, removing a parent - are not targets; if the generated target is refused before its first write, a plain ROA / ASPA / BGPsec / key-roll / re-publication request takes its place), cut position as a fraction of the "
+        "storage and file-system mutations that the fault-free twin counted for the target (and, in two thirds of the cases, for the background tasks it queues: repository synchronisation, RRDP and rsync writes, parent synchronisation), crash or single failed write) tuples; "
+        "distinct by hash of the case JSON; non-trivial iff the fault fired (the cut position was reached)",
+        "floors": {"__nontrivial__": 0.60, "crash_fired": 0.25, "failed_write_fired": 0.28, "tasks_under_fault": 0.40, "fault_inside_the_operation": 0.30, "effect_present_after_fault": 0.12, "effect_absent_after_fault": 0.07, "resubmitted": 0.12, "cut_in_presave_window": 0.30, "cut_at_published_object_set": 0.06, "cut_at_task_queue": 0.09, "cut_at_command_log": 0.15, "cut_at_repository_log": 0.015, "cut_at_rrdp_files": 0.03, "cut_at_rsync_files": 0.04},
+        "assumptions": ["disk storage only (the memory back-end cannot be re-opened); a crash is realised as 'every mutation from the n-th on fails, then the runtime is dropped and a fresh one opened on the directory'",
+                        "mutations are the hook points H-kv (store/move/delete/clear of the key-value store) and H-fs (file writes, renames, removals of file.rs, rrdp.rs, rsync.rs) below the world's directory",
+                        "'equal up to fresh keys, serial numbers and class names' is decided on the configuration as the API shows it (ROA, ASPA, BGPsec definitions, parents, children with entitlements and state) and on the payloads a relying party validates, not on key identifiers or serials",
+                        "histories whose tree is already invalid before the fault (known findings of C01) are not used", "background work has caught up = task queue empty incl. tasks that were rescheduled to within two hours, the periodic parent refresh, and, if the comparison still fails, one cycle of the periodic re-publication (clock moved past the next manifest re-issue)", "a failed write after which the scheduler gives up (krill exits there) is followed by a restart", "operations that are several commands in a row (attach = add child + add parent, add CA = create + connect repository) may be cut between the commands; they are re-submitted step by step and only the final comparison applies"],
+        "technique": "fault-injection property-based testing with a differential oracle: generated history, then the target operation runs fault-free in a twin opened on a copy of the data directory and with an injected failed write or crash+restart in the original; "
+        "all-or-nothing and acknowledged-implies-present are decided by comparing the configuration with the states before and of the twin, validity and payloads by the relying-party walk, convergence after re-submission by comparison with the twin",
+        "level_text": "Exploration: cut positions are sampled uniformly over the counted mutations of generated operations; not an exhaustive enumeration of every cut of every operation. Sampling, not proof.",
+        "level_note": "Trusted base: the hook points cover the mutation sites listed; the directory copy; the relying-party walk.",
+    },
     "C12": {
         "level": "exploration",
         "cases": {"quick": 1600, "thorough": 32000},
